@@ -621,7 +621,14 @@ func resolveGroupMark(p *parent, gid int, dest netip.AddrPort, sock string) (int
 			}
 		}
 	}
-	// nobody's legitimate destination: a member whose scheme opens sockets of that type
+	// nobody's legitimate destination: a member whose scheme opens sockets of that
+	// type - first those whose (ignored) proxy it is
+	for _, cr := range cand {
+		s := cr.c.Scheme
+		if ap, err := netip.ParseAddrPort(cr.socksAddr); err == nil && ap == dest && sock == "STREAM" && (s == "" || s == "udp") {
+			return cr.c.ID, true
+		}
+	}
 	for _, cr := range cand {
 		s := cr.c.Scheme
 		udpBoth := s == "" || s == "udp"
